@@ -49,6 +49,7 @@ def jobs(tier):
         mk('C15', 'idle_other_bus/small_history', S.idle_other_bus_small_history(('A', 'B')), witnesses=W, split={'t_w': 2}),
         mk('C15', 'fw_target_cleared_then_timeout', S.fw_target_cleared_then_timeout(), witnesses=W),
         mk('C15', 'flood_idle', S.flood_idle(), witnesses=W),
+        mk('C15', 'cyclic_redispatch', S.cyclic_redispatch(), witnesses=W),
         mk('C15', 'wal_unserialisable', S.wal_unserialisable()),
     ]
     if tier == 'thorough':
